@@ -150,6 +150,16 @@ func (ic *instCtx) candidates(body, k *Term) []*Term {
 						add(tb.Sub(c, g))
 					}
 				}
+				// address-indexed ghost sets (allocation maps) are queried at byte addresses: use those too
+				if t.Args[0].Sort == BoolAr {
+					for _, c := range ic.pool[ByteAr] {
+						if g == nil {
+							add(c)
+						} else {
+							add(tb.Sub(c, g))
+						}
+					}
+				}
 			}
 		}
 		if t.Op == "app" {
